@@ -154,6 +154,10 @@ func Unmarshal(src, dst any) error {
 	case []any:
 		switch tdst := dst.(type) {
 		case *[]any:
+			if *tdst == nil {
+				// src isn't nil, so the output slice shouldn't be either.
+				*tdst = make([]any, 0, len(tsrc))
+			}
 			*tdst = append(*tdst, tsrc...)
 
 		default:
